@@ -61,7 +61,7 @@ impl StyleSheetTransformer {
         };
 
         {
-            parse_rules(&mut input, &mut this);
+            parse_rules(&mut input, &mut this, true);
         }
         this
     }
@@ -248,13 +248,21 @@ fn write_maybe_rpx_dimension(
     }
 }
 
-fn parse_rules(input: &mut StepParser, ss: &mut StyleSheetTransformer) {
-    let mut at_file_start = true;
+fn parse_rules(input: &mut StepParser, ss: &mut StyleSheetTransformer, top_level: bool) {
+    let mut at_file_start = top_level;
     while !input.is_exhausted() {
+        // `@charset` and other `@import` rules may precede an `@import`
+        let leading = at_file_start
+            && input.peek().map_or(false, |peek| match &*peek {
+                Token::AtKeyword(x) => {
+                    x.eq_ignore_ascii_case("import") || x.eq_ignore_ascii_case("charset")
+                }
+                _ => false,
+            });
         if !parse_at_rule(input, ss, at_file_start) {
             parse_qualified_rule(input, ss);
         }
-        at_file_start = false;
+        at_file_start = leading;
     }
 }
 
@@ -421,7 +429,7 @@ fn parse_at_rule(
                                     input
                                         .parse_nested_block::<_, (), ()>(|nested_input| {
                                             let input = &mut StepParser::wrap(nested_input);
-                                            parse_rules(input, ss);
+                                            parse_rules(input, ss, false);
                                             Ok(())
                                         })
                                         .ok();
